@@ -316,6 +316,13 @@ def _tab_generic(ctx, rep, rule, enum, spec_tables, files=None):
             seen[name] += 1
             base = "%s|%s|%s#%d" % (fn.name, rule, name, idx)
             idx += 1
+            if "scrut_mask" in tab:
+                masks = [lit_value(b["r"]) for b in walk_k(m["scrut"], "Binary") if b["op"] == "&"]
+                okm = all(mk is not None and (mk & tab["scrut_mask"]) == tab["scrut_mask"] for mk in masks)
+                if okm:
+                    rep.holds(rule, base + "|mask", loc(m), "the field is matched over all of its %d significant bits" % bin(tab["scrut_mask"]).count("1"))
+                else:
+                    rep.violation(rule, base + "|mask", loc(m), "%s masks the %s field with %s before matching; the field has significant bits 0x%X (%s), so distinct values are folded together (e.g. 6 -> 2)" % (fn.name, name, [hex(x) if x is not None else "?" for x in masks], tab["scrut_mask"], tab["source"]))
             for k, var in sorted(tab["map"].items()):
                 kk = _conv(k)
                 key = "%s|%s" % (base, k)
